@@ -2775,7 +2775,9 @@ impl<E: Effect> Executor<E> {
                         .all(|(a, b)| self.values_equal(a, b))
             }
             (Value::Builtin(a), Value::Builtin(b)) => a == b,
-            (Value::Process(a, func_a), Value::Process(b, func_b)) => a == b && func_a == func_b,
+            // The same process is the same value whatever function index the handle carries (the
+            // index only types the handle, and `Self_` reads it from a frame a tail call may replace).
+            (Value::Process(a, _), Value::Process(b, _)) => a == b,
             (Value::Reference(a), Value::Reference(b)) => a == b,
             _ => false,
         }
